@@ -10,7 +10,7 @@ def gen(ctx):
     quick = ctx.tier == "quick"
     cs = []
     # (i) evaluation of INJECTED policies: the problem supplies the policy, one improvement step
-    n1 = 10 if quick else 150
+    n1 = 10 if quick else 600
     tries = 0
     while len([c for c in cs if c.get("inject")]) < n1 and tries < n1 * 30:
         tries += 1
@@ -33,7 +33,7 @@ def gen(ctx):
             c["guard"] = guard
             cs.append(c)
     # (ii) whole runs: both tests, reset on/off, budgets
-    n2 = 10 if quick else 150
+    n2 = 10 if quick else 600
     for me in (1, 3, 100):
         cs += runs.generate(ctx, "pi", max(2, n2 // 3), max_eval=me, ks=[30])
     return cs
